@@ -289,6 +289,22 @@ fn decode_encode(ctx: &mut Ctx, h: &RHeader, detail_checks: bool) -> bool {
             }
             Err(p) => ctx.panic("Header::to_async_writer", &p, json!({"header_hex": hex(&b)})),
         }
+        // the sync writer into a sink that accepts only part of each write
+        let mut sw = Inst::new(Vec::new());
+        sw.c.wsched = Sched::Random(rng.clone(), 40);
+        match guard(|| lib.to_writer(&mut sw)) {
+            Ok(Ok(())) => {
+                if sw.c.data != out {
+                    ctx.violation("Header::to_writer", "short-writes-differ", "writer emits different bytes into a sink with short writes", &format!("{} bytes arrived, 127 expected", sw.c.data.len()), json!({"header_hex": hex(&b)}));
+                    ok = false;
+                }
+            }
+            Ok(Err(e)) => {
+                ctx.violation("Header::to_writer", "error", "header write into a short-writing sink failed", &e.to_string(), json!({"header_hex": hex(&b)}));
+                ok = false;
+            }
+            Err(p) => ctx.panic("Header::to_writer", &p, json!({"header_hex": hex(&b)})),
+        }
         ctx.count("detail_checks");
     }
     ok
